@@ -129,6 +129,54 @@ def clause_kind(text, rendered, g):
     return kinds
 
 
+def run_trailing(ctx, r, renders, nstates):
+    """Set operation followed by ORDER BY .. LIMIT (clauses of the whole set operation).  The renderer's output is executed
+    with its parenthesised last operand written as a derived table (the reference engine has no `op (SELECT ..)`)."""
+    from mindsdb_sql import parse_sql
+    from sqlalchemy.exc import SQLAlchemyError
+    acc = ctx.acc
+    text, model, op = selgen.setop_trailing(r)
+    try:
+        tree = parse_sql(text, 'mindsdb')
+    except Exception:
+        acc.count('generator_text_rejected_by_parser')
+        return
+    states = [selgen.random_state(r) for _ in range(nstates)]
+    for target in TARGETS:
+        try:
+            rendered = renders[target].get_string(tree.copy(), with_failback=False)
+        except (SQLAlchemyError, NotImplementedError):
+            acc.count('unsupported:' + target)
+            continue
+        except Exception:
+            acc.count('renderer_internal_error_is_C17')
+            continue
+        m = re.match(r'(?s)^(.*?\b(?:UNION ALL|UNION|INTERSECT|EXCEPT)\s+)\((SELECT .*)\)\s*$', rendered)
+        executable = rendered if not m else m.group(1) + 'SELECT * FROM (' + m.group(2) + ')'
+        for st in states:
+            acc.ev()
+            a = run_sql(st, text)
+            if a[0] != 'ok':
+                acc.count('original_not_executable')
+                continue
+            b = run_sql(st, executable)
+            if b[0] != 'ok':
+                acc.count('not_executable_here:' + target)
+                break
+            acc.count('compared')
+            acc.count('setop_trailing_compared')
+            acc.add('targets_executed', target)
+            acc.add('features', 'setop-trailing-order-limit')
+            if a[2] != b[2]:
+                kind = 'rows-differ'
+                mm = run_sql(st, model)
+                if mm[0] == 'ok' and norm_rows(mm[2]) == norm_rows(b[2]):
+                    kind = 'setop-trailing-clause-bound-to-last-select'
+                acc.fail({'kind': kind, 'target': target, 'stmt': 'query', 'clause': 'setop-trailing-order-limit'},
+                         {'text': text, 'rendered': rendered, 'expected': repr(a[2])[:300], 'observed': repr(b[2])[:300], 'other_reading': model, 'state': st})
+                break
+
+
 def run_shard(ctx):
     from mindsdb_sql import parse_sql
     from mindsdb_sql.render.sqlalchemy_render import SqlalchemyRender
@@ -145,6 +193,9 @@ def run_shard(ctx):
             break
         r = core.rng_for(ctx.seed, 'C06', i)
         g = selgen.Gen(r)
+        if i % 12 == 5:
+            run_trailing(ctx, r, renders, nstates)
+            continue
         if r.random() < 0.75:
             text, ordered = g.query()
             is_query = True
